@@ -1,6 +1,7 @@
 package cluster
 
 import (
+	"runtime"
 	"context"
 	"fmt"
 	"sort"
@@ -84,7 +85,13 @@ func genC10(tier string, seed uint64, idx int) *simkit.Plan {
 			rp = fmt.Sprintf("%d%d%d", rng.Intn(minI(dcs, 3)), rng.Intn(minI(maxRacks, 3)), rng.Intn(minI(maxServers, 3)))
 		}
 		pref := rng.Intn(8)
-		p.Add(simkit.St("grow", rng.Uint64(), "rp", rp, "ssd", rng.Intn(5)/4, "pref", pref, "prefn", rng.Intn(n+1)))
+		kind := "grow"
+		if rng.Chance(1, 5) {
+			// two growth requests at once (two collections, or two /vol/grow calls): the second is started
+			// while the first one's AllocateVolume request is in flight
+			kind = "grow2"
+		}
+		p.Add(simkit.St(kind, rng.Uint64(), "rp", rp, "ssd", rng.Intn(5)/4, "pref", pref, "prefn", rng.Intn(n+1)))
 		if rng.Chance(1, 2) {
 			p.Add(simkit.St("change", rng.Uint64(), "n", rng.Intn(n), "delta", rng.Range(-2, 2)))
 		}
@@ -200,7 +207,7 @@ func execC10(r *simkit.Run) {
 			r.Log("heartbeat %s now %d volumes", s.id(), len(s.actual.vols))
 			r.Abs("change")
 			r.NonTrivial()
-		case "grow":
+		case "grow", "grow2":
 			if len(servers) == 0 {
 				continue
 			}
@@ -223,54 +230,141 @@ func execC10(r *simkit.Run) {
 				opt.DataCenter = "no-such-dc"
 			}
 			x, y, z := rp.DiffDataCenterCount, rp.DiffRackCount, rp.SameRackCount
-			// reference: does a valid set exist right now?
-			exists := c10exists(servers, free, disk, x, y, z, opt)
-			before := len(allocs)
-			cnt, err := vg.GrowByCountAndType(grpc.WithInsecure(), 1, opt, m.MS.Topo)
-			simkit.Wait()
-			got := allocs[before:]
-			var names []string
-			for _, a := range got {
-				names = append(names, a.server)
-			}
-			r.Log("grow rp=%s disk=%q pref=%s/%s/%s -> count=%d err=%v allocated=%v (valid set exists: %v)", rpS, disk, opt.DataCenter, opt.Rack, opt.DataNode, cnt, err != nil, names, exists)
-			r.Abs(fmt.Sprintf("grow:%s:%v:%v", rpS, err == nil, exists))
 			sit := fmt.Sprintf("rp=%d%d%d", min1(x), min1(y), min1(z))
 			if opt.DataCenter != "" {
 				sit += "+pref"
 			}
-			if !exists && len(got) > 0 {
-				r.Violate("allocated-although-no-valid-placement", sit, "replication %s disk %q preference %s/%s/%s: no valid server set exists but the master allocated volume %d on %v", rpS, disk, opt.DataCenter, opt.Rack, opt.DataNode, got[0].vid, names)
-				return
-			}
-			switch {
-			case len(got) > 0:
-				r.Count("grows-allocated")
-			case exists:
-				r.Count("grows-refused-although-a-valid-set-exists")
-			default:
-				r.Count("grows-refused-no-valid-set")
-			}
-			if len(got) == 0 {
-				continue
-			}
-			if why := c10valid(got[0].vid, names, byID, free, disk, x, y, z, opt); why != "" {
-				class := "wrong-placement"
-				if err != nil {
-					class = "partial-placement"
+			// judge one growth request's allocations against the registered state at that moment
+			judge := func(got []alloc, err error, tag string) bool {
+				exists := c10exists(servers, free, disk, x, y, z, opt)
+				var names []string
+				for _, a := range got {
+					names = append(names, a.server)
 				}
-				r.Violate(class, sit, "replication %s disk %q preference %s/%s/%s: volume %d allocated on %v (grow err=%v): %s", rpS, disk, opt.DataCenter, opt.Rack, opt.DataNode, got[0].vid, names, err, why)
-				return
+				r.Log("grow%s rp=%s disk=%q pref=%s/%s/%s -> err=%v allocated=%v (valid set exists: %v)", tag, rpS, disk, opt.DataCenter, opt.Rack, opt.DataNode, err != nil, names, exists)
+				r.Abs(fmt.Sprintf("grow%s:%s:%v:%v", tag, rpS, err == nil, exists))
+				if !exists && len(got) > 0 {
+					r.Violate("allocated-although-no-valid-placement", sit+tag, "replication %s disk %q preference %s/%s/%s: no valid server set exists but the master allocated volume %d on %v", rpS, disk, opt.DataCenter, opt.Rack, opt.DataNode, got[0].vid, names)
+					return false
+				}
+				switch {
+				case len(got) > 0:
+					r.Count("grows-allocated")
+				case exists:
+					r.Count("grows-refused-although-a-valid-set-exists")
+				default:
+					r.Count("grows-refused-no-valid-set")
+				}
+				if len(got) == 0 {
+					return true
+				}
+				if why := c10valid(got[0].vid, names, byID, free, disk, x, y, z, opt); why != "" {
+					class := "wrong-placement"
+					if err != nil {
+						class = "partial-placement"
+					}
+					r.Violate(class, sit+tag, "replication %s disk %q preference %s/%s/%s: volume %d allocated on %v (grow err=%v): %s", rpS, disk, opt.DataCenter, opt.Rack, opt.DataNode, got[0].vid, names, err, why)
+					return false
+				}
+				for _, a := range got {
+					if a.vid != got[0].vid || a.rp != rpS || normDisk(a.disk) != normDisk(disk) {
+						r.Violate("wrong-allocation-request", sit+tag, "allocation request %+v does not match the grow request (rp %s disk %q vid %d)", a, rpS, disk, got[0].vid)
+						return false
+					}
+					// the modelled server now has the volume (and reports it from now on)
+					s := byID[a.server]
+					s.actual.vols[a.vid] = mvol{Id: a.vid, Rp: rpS, Disk: disk}
+					s.reg.vols[a.vid] = mvol{Id: a.vid, Rp: rpS, Disk: disk}
+				}
+				return true
 			}
-			for _, a := range got {
-				if a.vid != got[0].vid || a.rp != rpS || normDisk(a.disk) != normDisk(disk) {
-					r.Violate("wrong-allocation-request", sit, "allocation request %+v does not match the grow request (rp %s disk %q vid %d)", a, rpS, disk, got[0].vid)
+			before := len(allocs)
+			if st.Kind == "grow" {
+				_, err := vg.GrowByCountAndType(grpc.WithInsecure(), 1, opt, m.MS.Topo)
+				simkit.Wait()
+				if !judge(allocs[before:], err, "") {
 					return
 				}
-				// the modelled server now has the volume (and reports it from now on)
-				s := byID[a.server]
-				s.actual.vols[a.vid] = mvol{Id: a.vid, Rp: rpS, Disk: disk}
-				s.reg.vols[a.vid] = mvol{Id: a.vid, Rp: rpS, Disk: disk}
+				break
+			}
+			// grow2: request A parks at its first AllocateVolume; request B (same option) is started meanwhile
+			n.Gate("/volume_server_pb.VolumeServer/AllocateVolume")
+			var errA, errB error
+			doneA, doneB := make(chan struct{}), make(chan struct{})
+			go func() { _, errA = vg.GrowByCountAndType(grpc.WithInsecure(), 1, opt, m.MS.Topo); close(doneA) }()
+			simkit.Wait()
+			isDone := func(c chan struct{}) bool {
+				select {
+				case <-c:
+					return true
+				default:
+					return false
+				}
+			}
+			inFlight := len(n.Pending())
+			go func() { _, errB = vg.GrowByCountAndType(grpc.WithInsecure(), 1, opt, m.MS.Topo); close(doneB) }()
+			// B may be waiting for the growth lock (a sync.Mutex, which the bubble does not treat as parked), so
+			// no quiescence wait from here on: spin, and see whether B gets as far as its own allocation request
+			overlapped := false
+			for i := 0; i < 20000 && inFlight > 0 && !isDone(doneB); i++ {
+				if len(n.Pending()) > inFlight {
+					overlapped = true
+					break
+				}
+				runtime.Gosched()
+			}
+			n.Ungate()
+			for i := 0; !(isDone(doneA) && isDone(doneB)); i++ {
+				for _, msg := range n.Pending() {
+					n.Release(msg, Verdict{Kind: "ok"})
+				}
+				runtime.Gosched()
+				if i > 50000000 {
+					r.HarnessError("concurrent growth requests did not finish")
+					return
+				}
+			}
+			simkit.Wait()
+			r.NonTrivial()
+			if inFlight > 0 {
+				r.Fault("second-growth-request-while-first-allocation-in-flight")
+			}
+			if overlapped {
+				r.Probe("second-growth-request-searched-while-first-allocation-in-flight")
+			}
+			// allocations grouped by volume id in order of first arrival; each group is judged in turn
+			var order []uint32
+			groups := map[uint32][]alloc{}
+			for _, a := range allocs[before:] {
+				if _, ok := groups[a.vid]; !ok {
+					order = append(order, a.vid)
+				}
+				groups[a.vid] = append(groups[a.vid], a)
+			}
+			errs := []error{errA, errB}
+			if len(order) > 2 {
+				r.Violate("wrong-allocation-request", sit+"/concurrent", "two growth requests for one volume each allocated %d volume ids", len(order))
+				return
+			}
+			nOK := 0
+			for _, e := range errs {
+				if e == nil {
+					nOK++
+				}
+			}
+			for gi, vid := range order {
+				var e error
+				if gi >= nOK {
+					e = fmt.Errorf("growth request failed")
+				}
+				if !judge(groups[vid], e, "/concurrent") {
+					return
+				}
+			}
+			for gi := len(order); gi < 2; gi++ {
+				if !judge(nil, fmt.Errorf("growth request failed"), "/concurrent") {
+					return
+				}
 			}
 		}
 		if r.Violated() || r.Res.HarnessError != "" {
